@@ -252,4 +252,8 @@ func init() {
 		"	defer idx.mu.Unlock()\n	return idx.indexPersist.prepare(idx.persistHead)()\n}\n\nfunc (idx *index) overlap", "	persistPointers := idx.indexPersist.prepare(idx.persistHead)\n	idx.mu.Unlock()\n	return persistPointers()\n}\n\nfunc (idx *index) overlap", "C02.R2.inorder")
 	mut("C02", "Close writes its index snapshot after releasing the index lock", "cesium/internal/domain/writer.go",
 		"		w.idx.mu.RLock()\n		defer w.idx.mu.RUnlock()\n		return w.idx.indexPersist.prepare(w.idx.persistHead)()", "		w.idx.mu.RLock()\n		persistPointers := w.idx.indexPersist.prepare(w.idx.persistHead)\n		w.idx.mu.RUnlock()\n		return persistPointers()", "C02.R2.inorder")
+
+	// ---------------- C04.R3 reader registration
+	mut("C04", "the read handle is opened before the reader pool lock is taken", "cesium/internal/domain/file_controller.go",
+		"	fc.readers.Lock()\n	defer fc.readers.Unlock()\n	file, err := fc.FS.Open(\n		fileKeyToName(key),\n		os.O_RDONLY,\n	)\n	if err != nil {\n		return nil, span.Error(err)\n	}\n", "	file, err := fc.FS.Open(\n		fileKeyToName(key),\n		os.O_RDONLY,\n	)\n	if err != nil {\n		return nil, span.Error(err)\n	}\n	fc.readers.Lock()\n	defer fc.readers.Unlock()\n", "C04.R3.gc")
 }
